@@ -9,7 +9,7 @@
 extern uint32_t lzma_verif_mf_offset_bias, lzma_verif_lz_reserve_cap;
 #endif
 
-#define MAXIN (1 << 22)
+#define MAXIN (20u << 20)
 static uint8_t *inb, *comp, *dec, *refo; static size_t inlen; static char in_name[96];
 static long n_rt, n_cfg, n_refchecks, n_skipped_cfg; static h_set cfgset;
 static int sh, nsh; static long unit;
@@ -208,6 +208,11 @@ static void fam_k6(int thorough) {	// entry points
 			for (size_t i = 0; i < (size_t)k && i + 1 < bsz; i++) inb[bsz - 1 - i] = inb[bsz - 2 - (size_t)k];	// k repeated bytes at the end of the first Block: the compressed size walks across the uncompressed size
 			inlen = L; snprintf(in_name, sizeof in_name, "random:len%zu,last %d bytes of the first Block repeated", L, k); c.block_size = bsz;
 			snprintf(c.name, sizeof c.name, "stream_encoder_mt chain=%slzma2(hc4,dict4096) threads=%d block_size=%zu", ch == 0 ? "" : ch == 1 ? "delta+" : "delta+x86+", th, bsz); roundtrip(&c); } }
+	// threaded encoder, one Block of 18.5 MiB of random data at preset-0 options: LZMA2 ends its chunks at the 64 KiB *compressed* limit, so there are more chunk headers than
+	// the worker's output buffer was sized for and the worker has to fall back to storing the Block uncompressed
+	if (take()) { static lzma_options_lzma p0; if (!lzma_lzma_preset(&p0, 0)) { config c; cfg_lzma(&c, EN_MT, LZMA_FILTER_LZMA2, &p0); c.threads = 2; c.block_size = 18u << 20; strcat(c.name, " threads=2 block_size=18MiB"); n_cfg++;
+		/* the first Block is filled completely (no spare room in its output buffer); xorshift64* bytes */ { uint64_t x = 0x243F6A8885A308D3ull; size_t L = (18u << 20) + 100000; for (size_t i = 0; i < L; i += 8) { x ^= x << 13; x ^= x >> 7; x ^= x << 17; uint64_t r = x * 0x2545F4914F6CDD1Dull; memcpy(inb + i, &r, L - i < 8 ? L - i : 8); } inlen = L; snprintf(in_name, sizeof in_name, "xorshift64*:len%zu", L); }
+		roundtrip(&c); } }
 	// MicroLZMA with every output limit
 	for (int inp = 0; inp < 8; inp++) { if (!take()) continue; size_t L = inp == 0 ? 0 : inp == 1 ? 1 : inp == 2 ? 5 : inp == 3 ? 40 : inp == 4 ? 300 : inp == 5 ? 2000 : inp == 6 ? 64 : 700; if (inp >= 6) in_lcg(L, 4); else in_periodic(3, 5, L, (long)L / 3);
 		for (int o = 0; o < 2; o++) { config c; cfg_lzma(&c, EN_MICRO, LZMA_FILTER_LZMA1, &OL[o ? 2 : 0]); n_cfg++; size_t maxlim = L + L / 8 + 20;
